@@ -39,5 +39,11 @@ func (e StringCharTupleExpr) Eval(ctx context.Context, local Scope) (_ Value, er
 	if err != nil {
 		return nil, WrapContextErr(err, e, local)
 	}
+	if _, is := at.(Number); !is {
+		return nil, WrapContextErr(fmt.Errorf("@ of a string char must be a number, not %s", ValueTypeAsString(at)), e, local)
+	}
+	if _, is := char.(Number); !is {
+		return nil, WrapContextErr(fmt.Errorf("@char must be a number, not %s", ValueTypeAsString(char)), e, local)
+	}
 	return NewTuple(NewAttr("@", at), NewAttr(StringCharAttr, char)), nil
 }
